@@ -30,8 +30,8 @@ def linearizability(chk, sd, binp_unused):
     binp = vlib.go_build("linsim", "internal/zz_verif/linsim", ["linsim/main.go"], sd)
     cs, r = cases.enumerate_cases("GenLin", "GenLin.cfg", env={"TIER": tier})
     chk.add_tlc("concurrent admin/traffic cases (spec/Lin.tla)", r)
-    reps = 60 if tier == "thorough" else 10
-    tp = cases.execute(binp, cs, sd, "lin", timeout=3000, extra_args=[str(reps)])
+    reps = 30 if tier == "thorough" else 10
+    tp = cases.execute_chunked(binp, cs, sd, "lin", chunk=4000, timeout=3000, extra_args=[str(reps)], par=2)
     st = json.load(open(tp + ".ok"))
     chk.cov["concurrent_histories_run"] = st["histories"]
     chk.cov["concurrent_histories_distinct"] = st["distinct"]
